@@ -68,11 +68,20 @@ fn main() {
             _ => OptSet::generate(&mut r, &h),
         };
         if mode == "rules" {
-            // content/message rules only (C07): no path, size or ref options
+            // content/message rules (C07). Two cases in three: rules only (no path, size or ref options); every third case
+            // keeps the other generated options next to the rules (stripping by size or id, ref renames, path selection:
+            // what those remove must be gone from the object store as well, and must not switch the rules off)
             let keep_msg = o.msg_file.clone();
             let keep_blob = o.blob_file.clone();
-            o = OptSet::neutral();
-            o.prune_empty = 1; o.prune_degenerate = 1;
+            if id % 3 != 2 {
+                o = OptSet::neutral();
+                o.prune_empty = 1; o.prune_degenerate = 1;
+            } else {
+                o.regexes.clear();
+                if o.tag_rename.is_none() && r.chance(1, 2) { o.tag_rename = Some((b"".to_vec(), b"old-".to_vec())); }
+                if o.branch_rename.is_none() && r.chance(1, 3) { o.branch_rename = Some((b"".to_vec(), b"b-".to_vec())); }
+                if o.strip_file.is_none() && o.max_blob.is_none() && r.chance(1, 2) { o.max_blob = Some(60); }
+            }
             o.msg_file = keep_msg.or(Some(b"hunter2==>***\nmessage\n".to_vec()));
             o.blob_file = keep_blob.or(Some(b"hunter2==>***REMOVED***\nsecret\n".to_vec()));
         }
